@@ -88,6 +88,11 @@ pub fn norm_msg(m: &str) -> String {
         Some(i) => &m[..i],
         None => m,
     };
+    // std's slicing errors quote the sliced string
+    let m = match m.find(" when slicing `") {
+        Some(i) => &m[..i],
+        None => m,
+    };
     for c in m.chars().take(120) {
         if c.is_ascii_digit() {
             if !in_num {
